@@ -1,11 +1,13 @@
 (** Evaluators of the C14 correspondence streams.  For each generated input
     and the implementation's observation they compute
     (i)   [v_corr]: the model's observation = the implementation's observation,
-    (ii)  [v_prop]: the property's predicate (C14/Spec.v: built from the
-          specification alone, on the implementation's observation),
+    (ii)  [v_prop]: the property's predicate (C14/Spec.v): the implementation's
+          observation is the observation of the SPECIFICATION's effective rule, as
+          projected by the model's [run] / [lookup] / [observe_ids],
     (iii) [v_guards]: no finding is open, so no guard.
-    [C14_corr_implies_prop*] (Properties/C14.v) shows that (i) implies (ii) for
-    every input. *)
+    [C14_corr_implies_prop] (check), [C14_corr_implies_prop_ids] (check_ids) and
+    [C14_corr_implies_prop_set] (check_rs) (Properties/C14.v) show that (i)
+    implies (ii) for every input. *)
 From HV Require Export Base.Prelude C14.Model C14.Spec C14.Proofs.
 
 (** the CEL oracle: the truth table of the driver's four condition expressions
@@ -33,7 +35,7 @@ Definition load_res_eqb {O} (eqb : O -> O -> bool) (a b : load_res O) : bool :=
   | _, _ => false
   end.
 
-(** stream 1 (and the shape of stream 3): default rule x rule definition x mode *)
+(** streams "factory", "history" and "realfactory": default rule x rule definition x mode *)
 Record gcase (O : Type) := {
   c_proxy : bool; c_def : option default_def; c_rule : rule_def; c_obs : load_res O }.
 Arguments c_proxy {O}. Arguments c_def {O}. Arguments c_rule {O}. Arguments c_obs {O}.
@@ -43,12 +45,13 @@ Definition gcheck {O} (obs_of : effective -> O) (eqb : O -> O -> bool) (c : gcas
      v_prop := prop_rule obs_of eqb (c_proxy c) (c_def c) (c_rule c) (c_obs c);
      v_guards := [] |}.
 
-(** stream "factory": executed traces *)
+(** streams "factory" and "history" (one case per CreateRule call of a history): executed traces *)
 Definition check : gcase robs -> verdict := gcheck (observe holds) robs_eqb.
 (** stream "realfactory": mechanism ids per stage *)
 Definition check_ids : gcase iobs -> verdict := gcheck observe_ids iobs_eqb.
 
-(** stream "ruleset": rule sets as YAML text through the real parser,
+(** streams "ruleset" and "wiring" (the latter: preload 0, through the fx Module, the real
+    file_system provider and rule executor): rule sets as YAML text through the real parser,
     processor (OnCreated / OnUpdated over [s_preload] preloaded rules) and repository *)
 Record case_rs := {
   s_proxy : bool; s_def : option default_def; s_preload : nat; s_set : set_def; s_obs : set_res }.
